@@ -431,6 +431,127 @@ def modifyChanged (u : User) (type : String) (pathName : Option String) (q : Que
     (finding F-C18b).  The object is then created from the request (:47-150). -/
 def createGranted (u : User) (type : String) : Bool := hasPermission u ("objects/create/" ++ type)
 
+/-! ## Secondary objects (round 4): requests that act on more than their targets
+
+  `deps o`: the objects that go with `o` — the services of a host (`Host::GetServices()`); which these are is the
+  registry's business and an input here. -/
+
+/-- DeleteObjectHandler on objects that WERE created through the API (deleteobjecthandler.cpp:83-104,
+    ConfigObjectUtility::DeleteObjectHelper, configobjectutility.cpp:320-345): every target is deleted; a target with
+    dependents is refused without `cascade` (the loop goes on with the next target) and with `cascade` its dependents are
+    deleted first — for them neither a permission nor a filter is consulted (finding F-C18c). -/
+def deleteGone (u : User) (type : String) (pathName : Option String) (q : Query) (inv : Inventory)
+    (deps : Obj → List Obj) (cascade : Bool) : List Obj :=
+  match handlerTargets u "delete" type pathName q inv with
+  | .error _ => []
+  | .ok objs => if cascade then objs.flatMap (fun o => o :: deps o) else objs.filter (fun o => (deps o).isEmpty)
+
+/-- deleteobjecthandler.cpp:58-65, 114-117: 404 when GetFilterTargets throws, 500 as soon as one deletion was refused. -/
+def deleteStatusApi (deps : Obj → List Obj) (cascade : Bool) : Except Err (List Obj) → Nat
+  | .ok objs => if !cascade && objs.any (fun o => !(deps o).isEmpty) then 500 else 200
+  | .error _ => 404
+
+/-- schedule-downtime with `all_services` (apiactions.cpp:444-466): the handler invokes the action on every target; for a
+    target that is a host every service of the host gets a downtime as well — again without looking at the user. -/
+def downtimeActed (u : User) (types : List String) (q : Query) (inv : Inventory) (deps : Obj → List Obj) : List Obj :=
+  match (filterTargets u (actionQDT "schedule-downtime" types) q inv).result with
+  | .error _ => []
+  | .ok objs => objs.flatMap (fun o => o :: deps o)
+
+/-! ## Every registered URL handler checks a permission (round 4)
+
+  `Gen.urlHandlerChecks` (regenerated from `/repo/lib` on every run by gen/c18_permissions.py): one row per `Handle*`
+  method of every class registered with REGISTER_URLHANDLER — the permission expressions checked in its body
+  (`qd.Permission = …`, `CheckPermission(user, …)`, `HasPermission(user, …)`), in source order, and whether the body calls
+  another `Handle*` method (the config handlers' HandleRequest only dispatches on the HTTP verb to HandleGet / HandlePost /
+  HandleDelete, each of which checks for itself). -/
+
+/-- infohandler.cpp: `/` and `/v1` answer with the user's OWN permission list; no object is read or changed. -/
+def handlersWithoutPermission : List String := ["InfoHandler"]
+
+/-- Every method that handles a request itself contains a permission check, and no check asks for the empty permission. -/
+def handlerChecksOk (table : List (String × String × List String × Bool)) : Bool :=
+  table.all fun row =>
+    (handlersWithoutPermission.contains row.1 || row.2.2.2 || !row.2.2.1.isEmpty) && row.2.2.1.all (· != "")
+
+/-- all permission expressions checked anywhere in the `Handle*` methods of a class -/
+def classChecks (table : List (String × String × List String × Bool)) (cls : String) : List String :=
+  (table.filter (·.1 == cls)).flatMap (·.2.2.1)
+
+/-- The permission each handler class must ask for — what the model (`handlerQD`, `actionQD`, `createGranted`,
+    `handlerPermission`) and the harness assume per entry point. -/
+def expectedClassChecks : List (String × String) :=
+  [("ObjectQueryHandler", "objects/query/<>"), ("ModifyObjectHandler", "objects/modify/<>"),
+   ("DeleteObjectHandler", "objects/delete/<>"), ("CreateObjectHandler", "objects/create/<>"),
+   ("ActionsHandler", "actions/<>"), ("TemplateQueryHandler", "templates/query/<>"),
+   ("VariableQueryHandler", "variables"), ("TypeQueryHandler", "types"), ("StatusHandler", "status/query"),
+   ("ConsoleHandler", "console"), ("MallocInfoHandler", "debug"), ("EventsHandler", "events/<>"),
+   ("ConfigPackagesHandler", "config/query"), ("ConfigPackagesHandler", "config/modify"),
+   ("ConfigStagesHandler", "config/query"), ("ConfigStagesHandler", "config/modify"),
+   ("ConfigFilesHandler", "config/query")]
+
+def handlerTableOk (registered : List String) (table : List (String × String × List String × Bool)) : Bool :=
+  handlerChecksOk table &&
+  registered.all (fun c => table.any (·.1 == c)) &&                       -- a body was found for every registered class
+  expectedClassChecks.all (fun ce => (classChecks table ce.1).contains ce.2) &&
+  -- a handler class that is not known here (a new one) must check something in some method
+  registered.all (fun c => handlersWithoutPermission.contains c || !(classChecks table c).isEmpty)
+
+/-! ## Whole traces (round 4): requests of every entry point against a user and an inventory that CHANGE between requests -/
+
+/-- One request, by entry point. -/
+inductive Request
+  | targets (qd : QD) (q : Query)                                            -- FilterUtility::GetFilterTargets
+  | object (verb type : String) (pathName : Option String) (q : Query)       -- GET/POST/DELETE /v1/objects/<type>[/<name>]
+  | action (name : String) (types : List String) (q : Query)                 -- POST /v1/actions/<name>
+  | modify (type : String) (pathName : Option String) (q : Query)            -- POST /v1/objects/…: which objects change
+  | lookup (type name : String)                                              -- GetSingleObjectByNameUsingPermissions
+  | join (joined : Obj)                                                      -- a joined object of a query response
+  | access (perm : String) (o : Obj)                                         -- HasPermission + EvaluateFilter on one object
+  | bare (perm : String)                                                     -- CheckPermission(user, perm)
+
+inductive Response
+  | targets (result : Except Err (List Obj)) (log : List Access)
+  | changed (objs : List Obj)
+  | found (o : Option Obj)
+  | granted (b : Bool)
+
+/-- The code takes every decision from the user's permission list and the registry AS THEY ARE when the request arrives:
+    nothing is remembered from one request to the next (HasPermission reads `user->GetPermissions()` each time,
+    filterutility.cpp:193). -/
+def runRequest (u : User) (inv : Inventory) : Request → Response
+  | .targets qd q => .targets (filterTargets u qd q inv).result (filterTargets u qd q inv).log
+  | .object verb type pn q =>
+    .targets (filterTargets u (handlerQD verb type) (handlerQuery type pn q) inv).result
+             (filterTargets u (handlerQD verb type) (handlerQuery type pn q) inv).log
+  | .action name types q => .targets (filterTargets u (actionQDT name types) q inv).result (filterTargets u (actionQDT name types) q inv).log
+  | .modify type pn q => .changed (modifyChanged u type pn q inv)
+  | .lookup t n => .found (lookupByPermission u t n inv)
+  | .join j => .granted (joinIncluded u j)
+  | .access perm o => .granted (accessGranted u perm o)
+  | .bare perm => .granted (hasPermission u perm)
+
+structure World where
+  user : User
+  inv : Inventory
+
+inductive Op
+  | setUser (u : User)               -- `permissions` modified at runtime, or the ApiUser deleted and re-created
+  | setInventory (inv : Inventory)   -- objects created / deleted
+  | request (r : Request)
+
+/-- what is observed of one request: the world it met, the request, the answer -/
+structure Event where
+  world : World
+  request : Request
+  response : Response
+
+def runTrace : World → List Op → List Event
+  | _, [] => []
+  | w, .setUser u :: ops => runTrace { w with user := u } ops
+  | w, .setInventory i :: ops => runTrace { w with inv := i } ops
+  | w, .request r :: ops => ⟨w, r, runRequest w.user w.inv r⟩ :: runTrace w ops
+
 /-! ## Authentication (lib/remote/apiuser.cpp:13-58): to which ApiUser is a request attributed? -/
 
 structure AUser where
@@ -482,5 +603,11 @@ def authByHeader (users : List AUser) (header : String) (decoded : Option String
     `client_cn` equals the CN; which one that is among several is the registry's business, so the model yields the
     candidates. -/
 def authByCN (users : List AUser) (cn : String) : List AUser := users.filter (·.clientCN == cn)
+
+/-- HttpServerConnection's constructor (httpserverconnection.cpp:47-49): the connection carries the ApiUser whose
+    `client_cn` is the peer's identity ONLY when the TLS layer verified the peer's certificate (`authenticated`);
+    otherwise none, and every request has to present an Authorization header (:510-514).  Candidates as in `authByCN`. -/
+def connUser (users : List AUser) (identity : String) (authenticated : Bool) : List AUser :=
+  if authenticated then authByCN users identity else []
 
 end Icinga.C18
